@@ -7,6 +7,7 @@
    when polls are serialised) is not yet proved; it is monitored on the implementation. *)
 From AL Require Import Base Api Mutex MutexApi MutexInv.
 From AL.Tie Require Tie_Mutex.
+From AL.Sched Require MutexEvSched MutexEvInv MutexEvOrd.
 
 Theorem C13_closed_hist : forall (ops : list mop) (arc : bool),
   N.of_nat (length ops) < OPS_BOUND ->
@@ -33,5 +34,17 @@ Proof.
   eexists 0%nat, _. split; [left; reflexivity | reflexivity].
 Qed.
 
+(* ---------- schedule half of the try_lock clause: every interleaving of atomic actions ---------- *)
+(* On the micro-step machine of Sched/MutexEvSched.v (see C05), in EVERY reachable state of EVERY schedule: while some lock
+   operation holds a starvation ticket (from its fetch_add(2) until its take_mutex or its drop) the state word is not 0, so
+   a try_lock — the compare_exchange(0,1) of any thread, at any instant, also while the mutex is momentarily unlocked —
+   fails and changes nothing. *)
+Theorem C13_closed_sched : forall (sched : list MutexEvSched.act) (nfuts : nat),
+  let s := MutexEvSched.run MutexEvSched.gen_mutex_bt nfuts sched in
+  (exists i f, MutexEvSched.getf s i = Some f /\ MutexEvSched.fstv f = true) ->
+  MutexEvSched.g_w s <> 0 /\ MutexEvSched.step MutexEvSched.gen_mutex_bt s MutexEvSched.ATry = s.
+Proof. rewrite MutexEvOrd.mutex_bt_premise. exact MutexEvInv.mutex_sched_starved_closes_fast_path. Qed.
+
 Print Assumptions C13_closed_hist.
 Print Assumptions C13_ticket_in_word.
+Print Assumptions C13_closed_sched.
